@@ -460,6 +460,28 @@ fn wrap_ref(op: &str, target: &str, m: &Material) -> Value {
   }
 }
 
+/// harmless sibling keys next to the referencing operator of a cycle member
+fn decorate(obj: &mut Value, op: &str, rng: &mut Rng, m: &Material, utils: &mut Map<String, Value>) {
+  let k = m.kinds.first().cloned().unwrap_or_else(|| "identifier".into());
+  let n = rng.below(3);
+  for _ in 0..n {
+    match rng.below(8) {
+      0 if op != "matches" => {
+        utils.insert("leaf".into(), json!({"kind": k}));
+        obj["matches"] = json!("leaf");
+      }
+      1 => obj["kind"] = json!(k),
+      2 => obj["regex"] = json!("a"),
+      3 if op != "not" => obj["not"] = json!({"kind": k}),
+      4 if op != "any" => obj["any"] = json!([{"kind": k}, {"regex": "^1"}]),
+      5 if op != "all" => obj["all"] = json!([{"kind": k}]),
+      6 if op != "ofRule" => obj["nthChild"] = json!(1),
+      7 if op != "has" && op != "stopByHas" => obj["has"] = json!({"kind": k}),
+      _ => {}
+    }
+  }
+}
+
 pub const CYCLE_OPS: [&str; 11] = ["matches", "all", "any", "not", "inside", "has", "precedes", "follows", "ofRule", "stopBy", "stopByHas"];
 
 pub const FAULTS: [&str; 46] = [
@@ -596,10 +618,16 @@ fn inject(fault: &'static str, g: &mut GenDoc, m: &Material, rng: &mut Rng) -> b
       let op2 = *rng.pick(&CYCLE_OPS);
       let u = ensure_utils(doc);
       if fault == "cycle_utils_self" {
-        u.insert("cy0".into(), wrap_ref(op1, "cy0", m));
+        let mut c0 = wrap_ref(op1, "cy0", m);
+        decorate(&mut c0, op1, rng, m, u);
+        u.insert("cy0".into(), c0);
       } else {
-        u.insert("cy0".into(), wrap_ref(op1, "cy1", m));
-        u.insert("cy1".into(), wrap_ref(op2, "cy0", m));
+        let mut c0 = wrap_ref(op1, "cy1", m);
+        let mut c1 = wrap_ref(op2, "cy0", m);
+        decorate(&mut c0, op1, rng, m, u);
+        decorate(&mut c1, op2, rng, m, u);
+        u.insert("cy0".into(), c0);
+        u.insert("cy1".into(), c1);
       }
       if rng.chance(2, 3) {
         let rule = doc.get_mut("rule").unwrap();
